@@ -31,9 +31,39 @@ H = vlib.VERIF / "harness" / PID
 CORPUS = vlib.VERIF / "corpus" / PID
 
 META = {
-    "text": "PLACEHOLDER",
-    "note": "PLACEHOLDER",
-    "technique": "PLACEHOLDER",
+    "text": "Rocq theorems, per container, for EVERY operation history and EVERY allocator fault schedule (not only the "
+            "enumerated ones), about the C06/C04/C05 models, whose operations already consume one schedule answer per a_alloc "
+            "request and log it: (reports) an operation in which a request was refused returns its failure value (A_OMEMORY, "
+            "null element pointer / null handle, -1 for a_str_catc, 0 for a_str_catf, NULL for a_str_exit); (preserves) the "
+            "container is as before: a_str keeps length, capacity, block size, byte string, invariant and a terminator that stood "
+            "after the content; the vector/buffer world and the queue world are IDENTICAL to the world before the call up to the "
+            "pending schedule (hence contents, invariants, ledger); (retry) re-issuing the operation is the step of the fault-free "
+            "run, and with nothing pending in the schedule nothing is refused; (ledger) a_str: a ledger machine with block "
+            "identities over construction / a_str_new / operations / a_str_exit hand-over / destruction never sees a release or "
+            "resize of a non-live block and is empty after the destructors, without any precondition; a_vec/a_buf: no EvBad "
+            "(release/resize of a non-live block) along any history satisfying C04's preconditions, the ledger holds exactly the "
+            "blocks the handles own, once each, and is empty after a_vec_die/a_buf_die; a_que: the heap holds exactly the two "
+            "sentinels plus the nodes the two objects account for (enqueued + recycled) after every operation, failed ones "
+            "included, and nothing but the sentinels after a_que_dtor. a_que_drop / a_que_setz are proved all-or-nothing as "
+            "repaired (fix commits 2e456ba, 8678f0c) and refuted by witness as found; a_str_catv as found (before ac1fa53) is "
+            "refuted by witness. Tie: FAULT ENUMERATION - each generated history is run fault-free, then with each single "
+            "request index refused (the refused call re-issued at once) and with each index and all later ones refused, by the "
+            "C built from the current tree (ASan+UBSan+LeakSanitizer, a_alloc replaced by a scheduling shim with its own ledger) "
+            "and by the extracted models; results, container dumps, request traces (kind, size, answer) and ledger are compared "
+            "line by line; the oracle re-checks the four clauses on the C output alone.",
+    "note": "Trusted: Coq kernel; extraction (ExtrOcamlBasic only) and the drivers harness/C06/drv.c (c07 mode), harness/C04/drv.c, "
+            "harness/C07/que_drv.c, harness/C07/{str,que}_mdrv.ml, harness/C04/mdrv.ml; the hand-written models of C06/C04/C05 "
+            "(tied by differential testing only, here under the enumerated schedules). Modelled, not verified: malloc/realloc/free "
+            "as a schedule-driven oracle with a ledger (a refused realloc keeps the old block); for a_que the pool array is not a "
+            "block of the model (it exists iff mem_ > 0), block sizes of queue nodes are not tracked (the tie compares the number "
+            "of live blocks and the sizes in the request trace), 'no release of a non-live block' is expressed by the block count "
+            "staying exact, queue operations are modelled with dtor = NULL, a_que_new/a_que_die (heap-allocated queue object) "
+            "are not modelled; string theorems (reports/preserves/retry) assume the documented size preconditions op_ok "
+            "(sizes < 2^64 - 8, formatter output < INT_MAX), vector/buffer ledger theorem assumes C04's hist_pre; queue theorems "
+            "assume a_que_swap_ is applied to enqueued elements. Memory safety of the C is observed by the sanitizers, not proved. "
+            "No axioms.",
+    "technique": "Rocq proof (invariants over histories and fault schedules, control-flow analysis of every allocation point, "
+                 "ledger/cardinality accounting) + fault-enumerating extracted-model vs C correspondence under ASan/UBSan/LSan",
     "category": "proof",
 }
 
@@ -441,6 +471,10 @@ class StrPart:
 
     text = staticmethod(str_text)
 
+    @staticmethod
+    def site(opl):
+        return str_cfunc(opl.split()[0])
+
 
 def parse_str_corpus(txt, stem):
     cases, cur = [], None
@@ -726,6 +760,10 @@ class VecPart:
 
     text = staticmethod(vec_text)
 
+    @staticmethod
+    def site(opl):
+        return vec_site(opl)[0]
+
 
 # ====================================================================================== a_que
 QUE_LINE = re.compile(r"^(\d+) (\S+) r=(-?\d+) A:(\S+) B:(\S+) v=\[([^\]]*)\] t=\[([^\]]*)\] L=(\d+)$")
@@ -992,6 +1030,10 @@ class QuePart:
 
     text = staticmethod(que_text)
 
+    @staticmethod
+    def site(opl):
+        return que_fn(opl.split()[0])
+
 
 # ====================================================================================== driver
 def process_part(ctx, part, stats):
@@ -1032,10 +1074,15 @@ def process_part(ctx, part, stats):
     mism, fails = [], []
     nops = 0
     nfail_ops = 0
+    by_site = {}
     for c in cases:
         cl, ml = cout.get(c.cid, []), mout.get(c.cid, [])
         nops += len(c.ops)
-        nfail_ops += sum(1 for l in cl if part.refused_line(l))
+        for i, l in enumerate(cl[:len(c.ops)]):
+            if part.refused_line(l):
+                nfail_ops += 1
+                fn = part.site(c.ops[i])
+                by_site[fn] = by_site.get(fn, 0) + 1
         d = vlib.first_diff(cl, ml)
         if d is not None:
             mism.append((c, d, cl[d] if d < len(cl) else "<missing>", ml[d] if d < len(ml) else "<missing>"))
@@ -1045,6 +1092,7 @@ def process_part(ctx, part, stats):
             fails.append((c, f))
     stats["ops_compared"] = nops
     stats["ops_with_refused_request"] = nfail_ops
+    stats["refused_by_function"] = dict(sorted(by_site.items()))
     stats["wall_s"] = round(time.time() - t0, 1)
     return cases, cout, mout, mism, fails
 
@@ -1065,12 +1113,26 @@ def shrink_case(part, case, key, base_of):
 PARTS = [StrPart(), VecPart(), QuePart()]
 
 
+def coqchk(ctx):
+    """thorough: re-check the compiled property module with the independent checker"""
+    rc, out = vlib.sh(["coqchk", "-silent", "-o", "-Q", ".", "LibaV", "LibaV.Properties_C07"], cwd=vlib.COQ, timeout=1500)
+    ax = re.search(r"\* Axioms:\s*(.*?)\n\s*\n", out, flags=re.S)
+    ok = rc == 0 and ax is not None and ax.group(1).strip() == "<none>"
+    ctx.cov["coqchk"] = {"rc": rc, "axioms": ax.group(1).strip() if ax else "?"}
+    if not ok:
+        ctx.tie_broken("coqchk on LibaV.Properties_C07 failed or reports axioms: rc=%d %s" % (rc, out[-400:]))
+    else:
+        ctx.cov["trusted_base"].append("coqchk -o LibaV.Properties_C07: accepted, axioms <none>")
+
+
 def run(ctx):
     if not ctx.quick:
+        # rebuild this property's own files from clean
         for f in list((vlib.COQ / "C07").glob("*.vo")) + [vlib.COQ / "Properties_C07.vo"]:
             if f.exists():
                 f.unlink()
-    ctx.prove()
+    if ctx.prove() and not ctx.quick:
+        coqchk(ctx)
     ctx.cov["parts"] = {}
     tot_ops = 0
     nontrivial = 0
@@ -1114,6 +1176,49 @@ def run(ctx):
                                "failing_op_index": f2[0], "expected": f2[2], "c_output": co, "model_output": mo,
                                "original_case": c.cid}, found_input=True)
     ctx.count(evaluations=tot_ops, nontrivial=nontrivial)
+    ctx.cov["trusted_base"] += [
+        "hand-written models coq/C06/StrDefs.v, coq/C04/VecDefs.v, coq/C05/QueDefs.v + coq/C07/*Defs.v, tied to the C by the "
+        "fault-enumerating correspondence of this check (and by checks/C06.py, C04.py, C05.py on their own histories)",
+        "malloc/realloc/free modelled as a schedule-driven oracle with a ledger (a refused realloc keeps the old block; the "
+        "harness allocators always move on realloc); vsnprintf by its contract (C06 StrDefs.vsn)",
+        "a_que: the pool array is not a block of the model (exists iff mem_ > 0); sizes of queue node blocks are not tracked; "
+        "dtor = NULL; a_que_new / a_que_die not modelled",
+        "extraction (ExtrOcamlBasic) and the drivers harness/C06/drv.c (c07 mode), harness/C04/{drv.c,mdrv.ml}, "
+        "harness/C07/{que_drv.c,que_mdrv.ml,str_mdrv.ml}",
+        "ASan/UBSan/LeakSanitizer and the shim ledgers as observers of the C run"]
     ctx.cov["rule"] = ("evaluations = operations executed by both the C implementation and the extracted model under the "
                        "enumerated fault schedules and compared line by line (result, container dump, request trace, ledger); "
                        "distinct_nontrivial = operations among them in which an allocation request was refused")
+
+
+def replay(ctx, path):
+    """re-run the case of a replay file on the current tree: C and model lines, oracle verdict"""
+    obj = json.loads(Path(path).read_text())
+    rp = obj["replay"]
+    part = next((p for p in PARTS if p.name == rp.get("part")), None)
+    if part is None:
+        ctx.tie_broken("replay file names no known part")
+        return 1
+    part.build(ctx)
+    lines = rp["case_file"].splitlines()
+    if part.name == "vec_buf":
+        sched = lines[0].split()[2] if len(lines[0].split()) > 2 else None
+        case = Case("replay", lines[1:], None if sched in (None, "-") else sched)
+    else:
+        sched = next((l.split()[1] for l in lines if l.startswith("sched ") and len(l.split()) > 1), None)
+        case = Case("replay", [l for l in lines if l.split() and l.split()[0] not in ("case", "sched", "end")], sched)
+    if hasattr(part, "choose_variant"):
+        part.variant = "fixed"
+    co = part.run_c([case]).get("replay", [])
+    mo = part.run_m([case]).get("replay", [])
+    print("\n".join("C: " + l[:300] for l in co))
+    print("\n".join("M: " + l[:300] for l in mo))
+    f = part.oracle(case, co, None)
+    print("oracle:", f)
+    if f:
+        ctx.report(key=f[1], what="%s -- %s" % (f[1], f[2][:600]),
+                   replay={"part": part.name, "case_file": part.text(case), "schedule": case.sched, "failing_op_index": f[0],
+                           "expected": f[2], "c_output": co, "model_output": mo, "original_case": "replay of " + str(path)})
+    elif vlib.first_diff(co, mo) is not None:
+        ctx.tie_broken("replayed case: C and model differ")
+    return 1 if f else 0
